@@ -692,5 +692,7 @@ func TestReplay(t *testing.T) {
 		"roundtrip": kit.ReplaySub(execRoundTrip),
 		"tcp":       kit.ReplaySub(execTCP),
 		"malformed": kit.ReplaySub(execMalformed),
+		"fuzz":      kit.ReplaySub(execFuzzCase),
+		"churn":     kit.ReplaySub(execChurn),
 	})
 }
